@@ -399,3 +399,43 @@ package scanner
 //@   modifies nothing
 //@   ghostensures ret.open == 0 && ret.lastEnd == 0 - 1
 //@   ensures fresh(ret) && NextInv(ret) && ret.file == file && ret.curIndex == 0 && ret.step == stateRoot
+
+// ---------------------------------------------------------------- include traces (C02)
+
+//@ func (*jerr.JApiError).HasStackTrace
+//@   inline
+
+// innermost include first: entry k of the trace is stack element len-1-k
+//@ func scanner.addIncludeTraceToError[scanner.stackItem]
+//@   tag C02 C01
+//@   requires forall i :: 0 <= i && i < len(stack) ==> stack[i].scanner != nil && stack[i].scanner.file != nil && stack[i].at <= len(stack[i].scanner.file.content)
+//@   modifies je.includeTrace
+//@   ensures je != nil && old(len(je.includeTrace)) == 0 ==> len(je.includeTrace) == len(stack)
+//@        && (forall k :: 0 <= k && k < len(stack) ==> je.includeTrace[k].path == stack[len(stack)-1-k].scanner.file.name)
+//@   ensures je != nil && old(len(je.includeTrace)) != 0 ==> len(je.includeTrace) == old(len(je.includeTrace))
+//@   loop 1 invariant 0 - 1 <= i && i < sl && sl == len(stack) && je != nil
+//@   loop 1 invariant len(je.includeTrace) == sl - 1 - i
+//@   loop 1 invariant forall k :: 0 <= k && k < sl - 1 - i ==> je.includeTrace[k].path == stack[sl-1-k].scanner.file.name
+//@   loop 1 decreases i + 1
+//@   loop 1 frame je
+
+//@ func scanner.addIncludeTraceToError[scanner.directiveIncludeTracerItem]
+//@   tag C02 C01
+//@   requires forall i :: 0 <= i && i < len(stack) ==> stack[i].file != nil && stack[i].at <= len(stack[i].file.content)
+//@   modifies je.includeTrace
+//@   ensures je != nil && old(len(je.includeTrace)) == 0 ==> len(je.includeTrace) == len(stack)
+//@        && (forall k :: 0 <= k && k < len(stack) ==> je.includeTrace[k].path == stack[len(stack)-1-k].file.name)
+//@   ensures je != nil && old(len(je.includeTrace)) != 0 ==> len(je.includeTrace) == old(len(je.includeTrace))
+//@   loop 1 invariant 0 - 1 <= i && i < sl && sl == len(stack) && je != nil
+//@   loop 1 invariant len(je.includeTrace) == sl - 1 - i
+//@   loop 1 invariant forall k :: 0 <= k && k < sl - 1 - i ==> je.includeTrace[k].path == stack[sl-1-k].file.name
+//@   loop 1 decreases i + 1
+//@   loop 1 frame je
+
+//@ func (*Stack).AddIncludeTraceToError
+//@   tag C02 C01
+//@   requires StackInv(s)
+//@   modifies je.includeTrace
+//@   ensures je != nil && old(len(je.includeTrace)) == 0 ==> len(je.includeTrace) == len(s.stack)
+//@        && (forall k :: 0 <= k && k < len(s.stack) ==> je.includeTrace[k].path == s.stack[len(s.stack)-1-k].scanner.file.name)
+//@   ensures je != nil && old(len(je.includeTrace)) != 0 ==> len(je.includeTrace) == old(len(je.includeTrace))
